@@ -19,9 +19,12 @@ EXPLANATION = (
 DECLINED = ["map semantics (last value wins, independence of keys/units) over arbitrary histories"]
 ASSUMPTIONS = ["X1 memory orders", "keys are never freed while values exist (documented API restriction)"]
 RULES_DOC = dict(common.SHARED_DOC)
+RULES_DOC["X7"] = common.X7_DOC
 RULES_DOC["X4"] = common.X4_DOC
 RULES_DOC["R5"] = "key identities are disjoint: statically initialised (internal) keys have distinct ids below the first dynamic id, and ABT_key_create hands out ids from a counter that starts above them (a user key never aliases the migration / stackable-scheduler key)"
 RULES_DOC["R6"] = "the key-table size cannot be configured to 0: the lower bound of the KEY_TABLE_SIZE loader is at least 1 (a table of zero slots is indexed with id & (0 - 1))"
+RULES_DOC["R9"] = "= C01.R2: a new work unit's descriptor -- including p_keytable = NULL -- is completely written before the unit is pushed to a pool: a store after the push races with the unit already running on another stream and wipes the key table it just created"
+RULES_DOC["R8"] = "key-table memory carved from a descriptor block (table, then elements) stays within the bytes ABTI_mem_alloc_desc hands out: block size constant + header <= offset of the malloc'ed/pool flag word (constants folded from the facts, both size tests and both extra_mem_size computations)"
 RULES_DOC["R7"] = "who-may-write census of ABTI_thread::p_keytable: only the constructors (NULL / initial table), the key-table setters (publication through the slot pointer) and the free path touch it -- a revive keeps the table and its values"
 RULES_DOC.update({
     "R1": "element initialised before its release-store link; acquire-load traversal; table pointer published by release store / reset on failure",
@@ -383,7 +386,61 @@ def rule_R7(P, rep):
                loc="src", site="keytable-writer/" + w)
 
 
+def rule_R8(P, rep):
+    """Key-table memory carved out of a descriptor block stays inside the part of the block that
+    ABTI_mem_alloc_desc hands out: the word behind it records whether the block was malloc'ed."""
+    from abtverif import ctrldep
+    A = P.fn("ABTI_mem_alloc_desc", "src/include/abti_mem.h")
+    offs = []
+    for _b, _i, lh, rh in A.stores():
+        ln = A.nodes[A.strip(lh)]
+        if ln.get("k") == "un" and ln["op"] == "*":
+            bn = A.nodes[A.strip(ln["e"])]
+            if bn.get("k") == "bin" and bn["op"] == "+":
+                v = common.const_eval(A, bn["rh"])
+                if v is not None:
+                    offs.append(v)
+    for _b, i in A.calls("ABTU_malloc"):
+        v = common.const_eval(A, A.nodes[i]["a"][0])
+        if v is not None:
+            offs.append(v)
+    rep.need(offs, "ABTI_mem_alloc_desc: usable size of a descriptor block not found")
+    usable = min(offs)
+    H = P.record("ABTI_ktable_mem_header")["size"]
+    n = 0
+    for fn in ("ABTI_ktable_create", "ABTI_ktable_alloc_elem"):
+        F = P.fn(fn, "src/include/abti_key.h")
+        ks = []
+        for _b, i in F.calls("ABTI_mem_alloc_desc"):
+            for a, _k in ctrldep.closure(F, F.block_of(i)):
+                tc = F.blocks[a].tc
+                if tc is None:
+                    continue
+                for leaf in ctrldep._operands(F, tc):
+                    ln = F.nodes[F.strip(leaf)]
+                    if ln.get("k") == "bin" and ln["op"] in ("<", "<=", ">", ">="):
+                        for side in (ln["lh"], ln["rh"]):
+                            v = common.const_eval(F, side)
+                            if v is not None and v > H:
+                                ks.append((v, F.loc(leaf)))
+        for _b, i, lh, rh in F.stores():
+            if rh is not None and F.field_of(lh) == ("ABTI_ktable", "extra_mem_size"):
+                rn = F.nodes[F.strip(rh)]
+                if rn.get("k") == "bin" and rn["op"] == "-":
+                    v = common.const_eval(F, rn["lh"])
+                    if v is not None:
+                        ks.append((v, F.loc(i)))
+        rep.need(ks, "%s: no constant block size governs ABTI_mem_alloc_desc" % fn)
+        for v, loc in ks:
+            n += 1
+            rep.ob("R8", "%s: %d bytes of table memory + %d-byte header fit the %d usable bytes of a descriptor block" % (fn, v, H, usable),
+                   v + H <= usable, "%d + %d > %d: the last element carved from the block overlaps the malloc'ed/pool flag that "
+                   "ABTI_mem_free_desc reads" % (v, H, usable), loc=loc, site="%s/desc-size" % fn)
+    rep.need(n >= 3, "only %d block-size constants found" % n)
+
+
 def run(P, rep, tier):
+    common.rule_X7(P, rep, records=('ABTI_key',))
     common.rule_X4(P, rep)
     common.run_shared(P, rep, which=("X1", "X2"))
     rule_R1_R2(P, rep)
@@ -392,3 +449,6 @@ def run(P, rep, tier):
     rule_R5(P, rep)
     rule_R6(P, rep)
     rule_R7(P, rep)
+    rule_R8(P, rep)
+    from . import C01
+    common.borrow(rep, P, C01.rule_R1_R2, "R9", only=("R2",))
